@@ -184,9 +184,13 @@ type writer struct {
 	prefixes  []string
 }
 
-// prefix names that are not spelled like an attribute of the grammar (see
-// the known finding kf-c08-decl-shadows-attr for those)
-var safePrefixes = []string{"C", "D", "cal", "dav", "ns0", "ns1", "x", "A", "B", "caldav", "d", "c", "xs", "n", "end-", "_start", "Name"}
+// prefix names, among them the names of the grammar's attributes: before the
+// repair eba20a7 a declaration xmlns:name="..." was taken for the name attribute
+var safePrefixes = []string{"C", "D", "cal", "dav", "ns0", "ns1", "x", "A", "B", "caldav", "d", "c", "xs", "n", "end-", "_start", "Name",
+	"name", "start", "end", "collation", "negate-condition", "C", "D"}
+
+// local names of attributes from a foreign namespace added now and then
+var foreignLocals = []string{"name", "start", "end", "collation", "negate-condition", "note", "novalue"}
 
 func newWriter(rng *hx.Rand, plain bool) *writer {
 	w := &writer{rng: rng, plain: plain}
@@ -438,6 +442,11 @@ func (w *writer) element(n *dnode, scope []binding) {
 				attrs = append(attrs, d)
 			}
 		}
+	}
+	if !w.plain && len(n.extra) == 0 && w.rng.Intn(10) == 0 {
+		// an extension attribute from a foreign namespace, declared right here
+		decls = append(decls, [2]string{"xmlns:fx", "urn:example:foreign"})
+		attrs = append(attrs, [2]string{"fx:" + w.rng.Pick(foreignLocals), w.rng.Pick([]string{"", "v", "20200101T000000Z", "yes"})})
 	}
 	all := append(attrs, decls...)
 	for _, x := range n.extra {
